@@ -56,3 +56,31 @@ Theorem C02_code_tie : forall (unq : str -> str) path,
   match canon_strict (comps (unq path)) [] with Some s => Ok s | None => Err (lit "ValueError") [] end.
 Proof. exact Equiv.canonical_segments_strict_tie. Qed.
 Print Assumptions C02_code_tie.
+
+(* ---- tie to the code (server/handler.py StaticFileHandler): the statements of coq/Equiv/EquivStatic.v, re-checked here against the definitions regenerated
+   from /repo's working tree (coq/Gen); see DESIGN.md 11.8 ---- *)
+From Coq Require Import List NArith ZArith Bool.
+From NV Require Import Prelude.Str Prelude.Res Prelude.Utf8 Model.Fs Model.Static Model.CertAuth.
+From NV Require Import Equiv.StaticGlue Gen.StaticGen.
+From NV Require Gen.PyGen.
+From NV Require Equiv.EquivStatic.
+Theorem C02_code_resolve_fully_tie : forall flt tok f base rel,
+  gen_resolve_fully (model_lib flt tok) f (base, rel) = nul_guard rel (rfull_res (resolve_fully f base rel)).
+Proof. exact EquivStatic.resolve_fully_tie. Qed.
+Print Assumptions C02_code_resolve_fully_tie.
+
+Theorem C02_code_static_is_safe_path_tie : forall L c f p,
+  gen_static_is_safe_path L c f p = Ok (path_prefixb (s_root c) p).
+Proof. exact EquivStatic.static_is_safe_path_tie. Qed.
+Print Assumptions C02_code_static_is_safe_path_tie.
+
+Theorem C02_code_handle_tie : forall flt tok c f url,
+  norm_resp (gen_handle (model_lib flt tok) c f url) = resp_of_sout (handle c f url).
+Proof. exact EquivStatic.handle_tie. Qed.
+Print Assumptions C02_code_handle_tie.
+
+Theorem C02_code_canon_lib_tie : forall flt tok p up, unquote p = Ok up ->
+  l_canon (model_lib flt tok) p false = PyGen.gen_canonical_path_segments (fun _ => up) p false.
+Proof. exact EquivStatic.canon_lib_tie. Qed.
+Print Assumptions C02_code_canon_lib_tie.
+
